@@ -69,6 +69,14 @@ class TargetActionMonitor:
                         run.V("C10.c", f"target-smoothing perturbation {d.max(0)} exceeds noise_clip*half range = {clip}*{half}")
                         return
                     run.res.probe("smoothing_within_noise_clip", a.shape[0])
+                    sigma = run.plan["cfg"].get("exploration_noise", 0) if run.adapter.name == "td3" else run.plan["cfg"].get("target_policy_noise", 0.2)
+                    if "C10.f" in run.cl and sigma > 0 and clip >= 4 * sigma:
+                        pt = last_pt[1].astype(np.float64)
+                        ok = (pt - lo > 5 * sigma * half) & (hi - pt > 5 * sigma * half)
+                        z = ((a - pt) / (sigma * half))[ok]
+                        zs = run.res.extra.setdefault("smooth_z", [])
+                        if len(zs) < 300:
+                            zs.extend(float(x) for x in z.reshape(-1)[: 300 - len(zs)])
                     if clip > 0 and np.any(d >= 0.999 * clip * half):
                         run.res.probe("smoothing_noise_clipped")
                 else:
@@ -369,6 +377,21 @@ class ActMonitor:
                 run.V("C13.a", f"step {k}: no exploration sample was drawn, yet action {int(a)} is not greedy for Q={q}")
             else:
                 run.res.probe("greedy_steps")
+        if unb and "C10.f" in cl and not env.discrete and getattr(run.adapter, "deterministic_actor", True) \
+                and run.plan["cfg"].get("exploration_noise", 0) > 0:
+            sigma = run.plan["cfg"]["exploration_noise"]
+            out = np.asarray(unb[-1][2], dtype=np.float64).reshape(-1)
+            lo, hi = env.action_space.low.astype(np.float64), env.action_space.high.astype(np.float64)
+            half = (hi - lo) / 2.0
+            av = a.reshape(-1).astype(np.float64)
+            if out.shape == av.shape:
+                # only components whose clipping probability is negligible (policy output >= 5 sigma away from both bounds)
+                ok = (out - lo > 5 * sigma * half) & (hi - out > 5 * sigma * half)
+                z = ((av - out) / (sigma * half))[ok]
+                zs = run.res.extra.setdefault("noise_z", [])
+                if len(zs) < 300:
+                    zs.extend(float(x) for x in z[: 300 - len(zs)])
+                    run.res.probe("noise_scale_samples", int(ok.sum()))
         if unb and "C10.e" in cl and not env.discrete and run.plan["cfg"].get("exploration_noise", 1) == 0 \
                 and getattr(run.adapter, "deterministic_actor", True):
             out = np.asarray(unb[-1][2]).reshape(-1)
